@@ -29,8 +29,13 @@ Definition mk_env (ne : list bool) (bk : list (list item)) (fmt : list (list (N 
 Record isnap := { s_applied : list bool; s_ids : list str; s_state : list (str * str);
                   s_fmap : list (str * list str); s_fna : list (str * list str) }.
 Record iout := { io_res : outcome (list str); io_errs : list N; io_snap : option isnap;
-                 io_hits : N; io_miss : N; io_hints : list N; io_tpl_ok : bool;
-                 io_vc : list (option (list str)) }.
+                 io_cache : option (N * N);         (* hits, misses of the parse cache - None: not an lru_cache any more *)
+                 io_hints : option (list N);        (* classes in the type-hint cache - None: kept elsewhere *)
+                 io_tpl_ok : bool;
+                 io_vc : option (list (option (list str))) }.   (* value caches - None: kept elsewhere *)
+(* internals are compared where the implementation still exposes them; the observable results always *)
+Definition opt_agrees {A} (eqb : A -> A -> bool) (m : A) (i : option A) : bool :=
+  match i with Some x => eqb m x | None => true end.
 
 Definition incl_b {A} (eqb : A -> A -> bool) (a b : list A) : bool :=
   forallb (fun x => existsb (eqb x) b) a.
@@ -59,9 +64,9 @@ Definition obs_eqb (r1 : outcome (list str)) (e1 : list N) (s1 : option isnap)
 Definition out_agrees (m : out) (i : iout) : bool :=
   let o := out_obs m in
   obs_eqb (o_res o) (o_errs o) (option_map snap_of (o_snap o)) (io_res i) (io_errs i) (io_snap i)
-  && N.eqb (out_hits m) (io_hits i) && N.eqb (out_miss m) (io_miss i)
-  && list_eqb N.eqb (out_hints m) (io_hints i) && Bool.eqb (out_tpl_ok m) (io_tpl_ok i)
-  && list_eqb (option_eqb (list_eqb str_eqb)) (out_vc m) (io_vc i).
+  && opt_agrees (pair_eqb N.eqb N.eqb) (out_hits m, out_miss m) (io_cache i)
+  && opt_agrees (list_eqb N.eqb) (out_hints m) (io_hints i) && Bool.eqb (out_tpl_ok m) (io_tpl_ok i)
+  && opt_agrees (list_eqb (option_eqb (list_eqb str_eqb))) (out_vc m) (io_vc i).
 
 Fixpoint all2 {A B} (f : A -> B -> bool) (a : list A) (b : list B) : bool :=
   match a, b with
